@@ -160,3 +160,160 @@ Example C08_interleaved_example :
     Ok [(5%nat, [[[(21,11);(21,21);(11,21);(11,11)]]; [[(3,3)]]]); (3%nat, [[[(20,12);(20,20);(12,20);(12,12)]]; [[(4,4)]]])] /\
   snapPolygonI (fun _ l => rev l) g tiny [5; 3]%nat (mkConfig false false false) = Ok [].
 Proof. vm_compute. repeat split; reflexivity. Qed.
+
+From Texel Require Import Snap.SnapTopSupport Snap.ProofsGenSnapTop.
+From Texel.Gen Require Import SnapTopGen.
+
+(** ** tie G2 for the top of snap.go: addPointsAndSnap REGENERATED from source on this run (gen/SnapTopGen.v,
+    translator/snaptop.go) is the interleaved model [addPointsAndSnapI] above, for EVERY iteration order of the Go
+    maps (hence, by C08_levels_do_not_interact, the per-level model [snapLevel] for every requested level).
+    REGENERATED from the AST, statement by statement: the loop over the rings with its index, [if len(levelMap) == 0
+    { continue }], [isOuter := ringIdx == 0], the re-assignment of the range variable [ring], [ringLen], the per-ring
+    map newRing and the loop that makes its entries, the loop over the vertices with [(vertexIdx + 1) % ringLen]
+    ([go_rem]: the Go panic for an empty divisor) and [ring[nextVertexIdx]] ([idx]: the index panic), the segment
+    literal, the three loops [for level := range levelMap] (which map is read / appended to / assigned at which key,
+    and with what), the three results of cleanupNewRing, the collapse test [isOuter && len(outerRings) == 0 &&
+    (!config.KeepPointsAndLines || len(pointsAndLines) == 0)] with [delete(levelMap, level)] + [continue] inside the
+    loop over levelMap (iteration over the keys present at the start, a key no longer present at its turn skipped),
+    [if config.KeepPointsAndLines], the final loop over the levels still alive (tuple assignment from
+    dedupeInnersOuters, the nested calls, [len(polygon) > 1], [if len(newPolygonsForLevel) > 0]), the loop over
+    newPointsAndLines (key and value) with its inner loop, the returned map.  Every range over a Go map iterates in the
+    order [gord site keys]: [gord] is a PARAMETER, [gen_site] (generated) has one constructor per range-over-map
+    statement and per call of ix.SnapClosestPoints, indexed by the key variables of the enclosing loops, so that every
+    execution of such a statement may use its own order; [site_order gord] reads a [gord] as the [ord] of the model.
+    Called as REGENERATED functions of the other gen files (rewritten to the model's by C06_source_tie_small, _cleanup_new_ring,
+    _dedupe_inners_outers, _match_inners, _ring_helpers): cleanupNewVertices, ensureCorrectWindingOrder, cleanupNewRing,
+    dedupeInnersOuters, outersToPolygons, matchInnersToPolygons, reverseWindingOrderIfConfigured, mapslicehelp.LastElement.
+    STAYS MODELLED (trusted micro-models of Snap/SnapTopSupport.v, used only after the translator has checked the AST for
+    the exact callee, import path and declared signature; listed at the top of gen/SnapTopGen.v):
+    - Go maps keyed by level = association lists ([aget] with the zero value, [aset], [afind]); map[Level]any = the list
+      of its keys (mapslicehelp.AsKeys = [as_keys], delete = [adel]); the result is compared through the reading
+      [afind np L] at the requested levels (a Go map has no order);
+    - ix.SnapClosestPoints(segment, levelMap, ringIdx) = [px_SnapClosestPoints]: the model's routing ([snapAndHit] of
+      Index/Model.v on every level of levelMap, in the order of the range statement inside it) and its update of the
+      hit maps of the index; ix.GetHitMultiple(level) = [px_GetHitMultiple] (its body is checked); the arguments
+      (hitMultiple, ringIdx) of cleanupNewRing = the predicate [hit_multi] (see C08_source_tie_vertices_hit_multiple);
+      a [*pointindex.PointIndex] = [pindex]: grid, occupied pixels, hit maps per level ([mkPIndex g hots []] = the index
+      right after InsertPolygon);
+    - geomhelp.FloatPolygonsToGeomPolygonsForAllKeys and geom.Polygon.LinearRings = the identity (type conversions);
+    - slices are values (sharing of backing arrays is outside the translation); int is exact Z, Level is nat.
+    SnapPolygon and tileMatrixIDsByLevels: C08_source_tie_snap_polygon and C08_source_tie_tile_matrix_ids_by_levels below. *)
+Theorem C08_source_tie_add_points_and_snap : forall gord g hots cfg P levels,
+  (forall s l, Permutation (gord s l) l) -> NoDup levels ->
+  (do np <- gen_addPointsAndSnap gord (mkPIndex g hots []) P levels cfg;
+   Ok (map (fun L => (L, afind np L)) levels))
+  = addPointsAndSnapI (site_order gord) g hots cfg P levels.
+Proof. exact gen_addPointsAndSnap_tie. Qed.
+Print Assumptions C08_source_tie_add_points_and_snap.
+
+(** hence the regenerated function returns, read at the requested levels, exactly the per-level results *)
+Theorem C08_source_tie_add_points_and_snap_per_level : forall gord g hots cfg P levels,
+  (forall s l, Permutation (gord s l) l) -> NoDup levels ->
+  forall rs,
+    (do np <- gen_addPointsAndSnap gord (mkPIndex g hots []) P levels cfg;
+     Ok (map (fun L => (L, afind np L)) levels)) = Ok rs
+    <-> mapM (fun L => do r <- snapLevel g hots P cfg L; Ok (L, r)) levels = Ok rs.
+Proof. exact gen_addPointsAndSnap_per_level. Qed.
+Print Assumptions C08_source_tie_add_points_and_snap_per_level.
+
+(** verticesHitMultiple REGENERATED from snap.go (the range over the Go map hitMultiple in any order [pord],
+    slices.Contains on the ring ids, the set of float vertices as a list read with [mem_pt]; ToGeomPoint = identity):
+    membership in its result is [hit_multi], the predicate the regenerated cleanupNewRing / splitRing are called with *)
+Theorem C08_source_tie_vertices_hit_multiple : forall (pord : gen_site -> list pt -> list pt) hm ringIdx,
+  (forall s l, Permutation (pord s l) l) ->
+  exists vs, gen_verticesHitMultiple pord hm ringIdx = Ok vs /\ forall p, mem_pt p vs = hit_multi hm ringIdx p.
+Proof. exact gen_verticesHitMultiple_spec. Qed.
+Print Assumptions C08_source_tie_vertices_hit_multiple.
+
+(** the regenerated code runs: the shell with a spike and a hole of C08_interleaved_example, every range over a Go map
+    in reversed order: levels 5 and 3 keep the hole, level 3 gets the spike as a line, level 1 a point, level 0
+    collapses to a point (kept); with keep = false the collapsed level 0 is deleted from levelMap during the loop over it
+    and is absent from the result; a tiny shell deletes both levels at the first ring, the hole is never looked at *)
+Example C08_source_tie_add_points_and_snap_example :
+  let g := mkGrid (mkExtent 0 0 64 64) 2 5 in
+  let P := [[(2,2);(40,2);(40,40);(21,40);(20,60);(19,40);(2,40)]; [(10,10);(10,20);(20,20);(20,10)]] in
+  let tiny := [[(2,2);(3,2);(3,3)]; [(10,10);(10,20);(20,20);(20,10)]] in
+  let hotsOf P := match insertPolygon g P with Ok hs => hotLevels g hs | Err _ => [] end in
+  let read levels r := match r with Ok np => Ok (map (fun L => (L, afind np L)) levels) | Err e => Err e end in
+  read [5; 3; 1; 0]%nat (gen_addPointsAndSnap (fun _ l => rev l) (mkPIndex g (hotsOf P) []) P [5; 3; 1; 0]%nat (mkConfig true false false))
+    = Ok [(5%nat, Some [[[(3,3);(41,3);(41,41);(21,41);(21,61);(19,41);(3,41)]; [(11,11);(11,21);(21,21);(21,11)]]]);
+          (3%nat, Some [[[(4,4);(44,4);(44,44);(20,44);(4,44)]; [(12,12);(12,20);(20,20);(20,12)]]; [[(20,44);(20,60)]]]);
+          (1%nat, Some [[[(16,16);(48,16);(48,48);(16,48)]]; [[(16,16)]]]);
+          (0%nat, Some [[[(32,32)]]; [[(32,32)]]])] /\
+  read [5; 0]%nat (gen_addPointsAndSnap (fun _ l => rev l) (mkPIndex g (hotsOf P) []) P [5; 0]%nat (mkConfig false false false))
+    = Ok [(5%nat, Some [[[(3,3);(41,3);(41,41);(21,41);(21,61);(19,41);(3,41)]; [(11,11);(11,21);(21,21);(21,11)]]]);
+          (0%nat, None)] /\
+  read [5; 3]%nat (gen_addPointsAndSnap (fun _ l => l) (mkPIndex g (hotsOf tiny) []) tiny [5; 3]%nat (mkConfig false false false))
+    = Ok [(5%nat, None); (3%nat, None)] /\
+  gen_verticesHitMultiple (fun _ l => rev l) [((1,1), [0; 2]%nat); ((2,2), [1]%nat); ((3,3), [2; 0]%nat)] 0
+    = Ok [(1,1); (3,3)].
+Proof. vm_compute. repeat split; reflexivity. Qed.
+
+From Texel Require Import Prelude.GoAssoc.
+From Texel Require Tms.Model.
+
+(** ** tie G2 for tileMatrixIDsByLevels and SnapPolygon, REGENERATED from snap.go on this run (gen/SnapTopGen.v).
+
+    tileMatrixIDsByLevels: [rootTM := tms.TileMatrices[0]], the level difference [uint(math.Log2(float64(rootTM.TileWidth))) +
+    uint(math.Log2(float64(pointindex.VectorTileInternalPixelResolution)))], the loop over the requested ids with
+    [level := uint(tmID) + levelDiff] and [tmIDsByLevels[level] = tmID] (a later id with the same level replaces an earlier
+    one) are derived from the AST; the result is the map built with the level arithmetic of the TMS model
+    ([Tms.Model.deepestLevel], the one C14 validates: 64-bit wrap-around of uint(tmID) and of both additions included).
+    MODELLED there: [uint(math.Log2(float64(w)))] = [Tms.Model.go_log2_uint w] (float code), [uint(x)] = x mod 2^64,
+    uint [+] = [GoTms.uint_add], the constant = gen_VectorTileInternalPixelResolution (REGENERATED, ConstsGen.v), a
+    [tms20.TileMatrixSet] = a [tmsview] (root tile width; the grid FromTileMatrixSet builds for a deepest id).
+
+    SnapPolygon: [slices.Max(tmIDs)], FromTileMatrixSet + [if err != nil { panic(err) }], the call of tileMatrixIDsByLevels, the
+    loop collecting the keys of that map into [levels] (a range over a Go map: any order [gord GSite8]), [err =
+    ix.InsertPolygon(polygon)] with the branch [errors.As(err, outsideGridErr) && config.IgnoreOutsideGrid] -> empty map,
+    else [panic(err)], the call of addPointsAndSnap (the REGENERATED gen_addPointsAndSnap above, same [gord]) and the loop
+    that re-keys its result by tile matrix id (a range over a Go map: [gord GSite9]) are derived from the AST.
+    The theorem: read at the tile matrix id of every requested level, the returned map is [snapPolygonI] (the interleaved
+    model of C08_snapPolygon_interleaved, hence [snapPolygon] of the per-level model) run on the grid of the fresh index
+    and on the levels in the order the key-collecting loop happened to produce, for EVERY order of every map range.
+    MODELLED (trusted, AST shape / signatures checked by the translator, listed at the top of gen/SnapTopGen.v):
+    pointindex.FromTileMatrixSet = [tvIndex] of the view (any function: the theorem quantifies over the view);
+    ix.InsertPolygon = [px_InsertPolygon] = the model's [insertPolygon] ([Err] = a panic inside, returned error = always an
+    OutsideGridError: the translator checks the return statements of InsertPolygon / InsertPoint / InsertCoord);
+    errors.As on that error = "not nil"; slices.Max = [go_slices_max] (empty slice: panic); log.Println = nothing;
+    map[tms20.TMID][]geom.Polygon = association list read with [gm_get Z.eqb]. *)
+Theorem C08_source_tie_tile_matrix_ids_by_levels :
+  (forall view tmIDs,
+     gen_tileMatrixIDsByLevels view tmIDs = Ok (tmIDsByLevels (tvRootTileWidth view) tmIDs)) /\
+  (forall tw tmIDs,
+     tmIDsByLevels tw tmIDs = fold_left (fun m id => aset m (Z.to_nat (Tms.Model.deepestLevel tw id)) id) tmIDs []) /\
+  (forall tw id, 1 <= tw -> 0 <= id -> id + Z.log2 tw + 4 < 2 ^ 64 ->
+     Tms.Model.deepestLevel tw id = id + Z.log2 tw + 4).
+Proof.
+  split; [exact gen_tileMatrixIDsByLevels_spec |]. split; [reflexivity | exact deepestLevel_plain].
+Qed.
+Print Assumptions C08_source_tie_tile_matrix_ids_by_levels.
+
+Theorem C08_source_tie_snap_polygon : forall gord view tmIDs P cfg,
+  (forall s l, Permutation (gord s l) l) ->
+  let byLevel := tmIDsByLevels (tvRootTileWidth view) tmIDs in
+  let levels := gord GSite8 (lv_keys byLevel) in
+  (do out <- gen_SnapPolygon gord P view tmIDs cfg;
+   Ok (flat_map (fun L => match gm_get Z.eqb out (aget byLevel L 0) with Some ps => [(L, ps)] | None => [] end) levels))
+  = (do d <- go_slices_max tmIDs; do g <- tvIndex view d; snapPolygonI (site_order gord) g P levels cfg).
+Proof. exact gen_SnapPolygon_spec. Qed.
+Print Assumptions C08_source_tie_snap_polygon.
+
+(** the regenerated code runs: root tile 256 pixels wide (8 + 4 = 12 levels below tile matrix 0), a grid of 2^13 pixels of
+    2 units for the deepest requested id 1; ids 1 and 0 (levels 13 and 12), both orders of every map range; a polygon
+    outside the grid is a panic, or an empty map when config.IgnoreOutsideGrid; no ids: the panic of slices.Max *)
+Example C08_source_tie_snap_polygon_example :
+  let view := mkTmsView 256 (fun d => if d =? 1 then Ok (mkGrid (mkExtent 0 0 16384 16384) 2 13) else Err DivZero) in
+  let P := [[(21,21);(4001,21);(4001,4001);(21,4001)]; [(1001,1001);(1001,2001);(2001,2001);(2001,1001)]] in
+  gen_tileMatrixIDsByLevels view [1; 0; 1] = Ok [(13%nat, 1); (12%nat, 0)] /\
+  gen_SnapPolygon (fun _ l => rev l) P view [1; 0] (mkConfig false false false)
+    = Ok [(0, [[[(22,22);(4002,22);(4002,4002);(22,4002)]; [(1002,1002);(1002,2002);(2002,2002);(2002,1002)]]]);
+          (1, [[[(21,21);(4001,21);(4001,4001);(21,4001)]; [(1001,1001);(1001,2001);(2001,2001);(2001,1001)]]])] /\
+  gen_SnapPolygon (fun _ l => l) P view [1; 0] (mkConfig false false false)
+    = Ok [(1, [[[(21,21);(4001,21);(4001,4001);(21,4001)]; [(1001,1001);(1001,2001);(2001,2001);(2001,1001)]]]);
+          (0, [[[(22,22);(4002,22);(4002,4002);(22,4002)]; [(1002,1002);(1002,2002);(2002,2002);(2002,1002)]]])] /\
+  gen_SnapPolygon (fun _ l => l) [[(21,21);(20001,21);(4001,4001)]] view [1; 0] (mkConfig false false false) = Err OutsideGrid /\
+  gen_SnapPolygon (fun _ l => l) [[(21,21);(20001,21);(4001,4001)]] view [1; 0] (mkConfig false true false) = Ok [] /\
+  gen_SnapPolygon (fun _ l => l) P view [] (mkConfig false false false) = Err IndexOutOfRange /\
+  gen_SnapPolygon (fun _ l => l) P view [0] (mkConfig false false false) = Err DivZero.
+Proof. vm_compute. repeat split; reflexivity. Qed.
